@@ -1,45 +1,3 @@
-(* The constants the models use are the ones the Go sources have now (coq/Extracted.v is
-   regenerated from /repo on every run): if a constant changes in the code, one of these
-   equalities stops compiling and every property whose model uses it is reported. *)
-From Coq Require Import ZArith List String.
-From TR Require Import Extracted model.Ring model.Detector model.Processor model.LogLimiter.
-Import ListNotations.
-Open Scope Z_scope.
-
-Lemma ffc_period_agrees : FFC_PERIOD = ffc_period_ns.
-Proof. reflexivity. Qed.
-
-Lemma no_oldest_agrees : @NO_OLDEST_SET = no_oldest_set.
-Proof. reflexivity. Qed.
-
-(* `mp.snapshotFrames > 20`: the model's SNAP_LAST and its `>?` *)
-Lemma snapshot_limit_agrees : SNAP_LAST = snapshot_frames_limit /\ snapshot_frames_op = ">"%string.
-Proof. split; reflexivity. Qed.
-
-Lemma weight_increment_agrees : weight_increment = "0.1"%string.
-Proof. reflexivity. Qed.
-
-(* ring capacity, min/max frames as NewMotionProcessor computes them (the harness derives
-   p_size / p_min / p_max from the configuration with exactly these expressions) *)
-Lemma processor_wiring_agrees :
-  wiring_frameLoop = "NewFrameLoop(recorderConf.PreviewSecs*c.FPS()+motionConf.TriggerFrames, c)"%string /\
-  wiring_minFrames = "recorderConf.MinSecs * c.FPS()"%string /\
-  wiring_maxFrames = "recorderConf.MaxSecs * c.FPS()"%string /\
-  wiring_motionDetector = "NewMotionDetector(*motionConf, recorderConf.PreviewSecs*c.FPS(), c)"%string.
-Proof. repeat split; reflexivity. Qed.
-
-Lemma log_interval_agrees : min_log_interval_ns = 60000000000.
-Proof. reflexivity. Qed.
-
-(* the throttle's minimum recording length as wired in main.go *)
-Lemma throttle_wiring_agrees :
-  wiring_min_recording_length = "conf.Recorder.MinSecs + conf.Recorder.PreviewSecs"%string.
-Proof. reflexivity. Qed.
-
-(* the modelled dependency versions *)
-Lemma dependency_versions_agree :
-  dep_ratelimit = "v1.0.1"%string /\
-  dep_go_cptv = "v0.0.0-20211109233846-8c32a5d161f7"%string /\
-  dep_lepton3 = "v0.0.0-20210324024142-003e5546e30f"%string /\
-  dep_window = "v0.0.0-20200312071457-7fc8799fdce7"%string.
-Proof. repeat split; reflexivity. Qed.
+(* All the agreement facts between coq/Extracted.v (regenerated from /repo on every run) and the
+   models, by topic; each property imports the topics its models use. *)
+From TR Require Export proofs.FactsRing proofs.FactsProc proofs.FactsDet proofs.FactsThrottle proofs.FactsDeps.
